@@ -2273,7 +2273,7 @@ C06_THEOREMS = ['Blf.Props.C06_queue_no_deadlock', 'Blf.Props.C06_queue_terminat
                 'Blf.Props.C06_tie_read', 'Blf.Props.C06_write_pipeline_no_deadlock', 'Blf.Props.C06_write_pipeline_terminates']
 C07_THEOREMS = ['Blf.Props.C07_queue_result', 'Blf.Props.C07_read_pipeline_prefix', 'Blf.Props.C07_read_pipeline_eof_last',
                 'Blf.Props.C07_write_pipeline_result', 'Blf.Props.C07_write_pipeline_prefix']
-C11_THEOREMS = []
+C11_THEOREMS = ['Blf.Props.C11_read_handover', 'Blf.Props.C11_write_handover']
 
 
 def check_C12(res):
